@@ -523,9 +523,13 @@ class Program:
         if c.resolved:
             b = self.bodies.get(c.id)
             return [b] if b is not None else []
-        # unresolved trait method: class-hierarchy edges to every local impl
+        # unresolved trait method: class-hierarchy edges to every local impl (+ the trait's default body)
         if c.trait:
-            return list(self._impls_of.get(c.decl_path, []))
+            out = list(self._impls_of.get(c.decl_path, []))
+            d = self.bodies.get(c.raw["id"])
+            if d is not None:
+                out.append(d)
+            return out
         b = self.bodies.get(c.raw["id"])
         return [b] if b is not None else []
 
@@ -539,6 +543,8 @@ class Program:
                     out.append(("fn", Callee(k["fn"])))
                 elif "closure" in k:
                     out.append(("closure", k["closure"]))
+                elif "named" in k:
+                    out.append(("const", k["named"]))
 
         for bd in [body] + body.promoted:
             for b in range(bd.n):
@@ -560,7 +566,95 @@ class Program:
                     out.append(("dropfn", t["drop_fn"]))
         return out
 
+    # traits whose local impls an *external generic* callee may call back into, by callee name
+    CALLBACK_TRAITS = {
+        "parse": {"std::str::FromStr"},
+        "from_residual": {"std::convert::From"},
+        "into": {"std::convert::From"},
+        "try_into": {"std::convert::TryFrom"},
+        "to_string": {"std::fmt::Display"},
+        "new_display": {"std::fmt::Display"},
+        "new_debug": {"std::fmt::Debug"},
+        "collect": {"std::iter::FromIterator", "std::iter::Extend"},
+        "from_iter": {"std::iter::FromIterator"},
+        "extend": {"std::iter::Extend", "std::clone::Clone"},
+        "clone": {"std::clone::Clone"},
+        "cloned": {"std::clone::Clone"},
+        "to_vec": {"std::clone::Clone"},
+        "to_owned": {"std::clone::Clone"},
+        "clone_from": {"std::clone::Clone"},
+        "default": {"std::default::Default"},
+        "unwrap_or_default": {"std::default::Default"},
+        "eq": {"std::cmp::PartialEq"},
+        "ne": {"std::cmp::PartialEq"},
+        "contains": {"std::cmp::PartialEq"},
+        "cmp": {"std::cmp::Ord", "std::cmp::PartialOrd"},
+        "partial_cmp": {"std::cmp::PartialOrd"},
+        "sort": {"std::cmp::Ord", "std::cmp::PartialOrd"},
+        "hash": {"std::hash::Hash"},
+        "sum": {"std::iter::Sum"},
+        "max": {"std::cmp::Ord", "std::cmp::PartialOrd"},
+        "min": {"std::cmp::Ord", "std::cmp::PartialOrd"},
+        "sort_unstable": {"std::cmp::Ord", "std::cmp::PartialOrd"},
+        "binary_search": {"std::cmp::Ord", "std::cmp::PartialOrd"},
+        "dedup": {"std::cmp::PartialEq"},
+        "position": {"std::cmp::PartialEq"},
+        "resize": {"std::clone::Clone"},
+        "insert": {"std::hash::Hash", "std::cmp::PartialEq", "std::cmp::Ord", "std::cmp::PartialOrd"},
+        "get": {"std::hash::Hash", "std::cmp::PartialEq", "std::cmp::Ord", "std::cmp::PartialOrd"},
+        "remove": {"std::hash::Hash", "std::cmp::PartialEq", "std::cmp::Ord", "std::cmp::PartialOrd"},
+        "contains_key": {"std::hash::Hash", "std::cmp::PartialEq", "std::cmp::Ord", "std::cmp::PartialOrd"},
+        "entry": {"std::hash::Hash", "std::cmp::PartialEq", "std::cmp::Ord", "std::cmp::PartialOrd"},
+        "fmt": {"std::fmt::Display", "std::fmt::Debug"},
+        "write_fmt": {"std::fmt::Display", "std::fmt::Debug"},
+        "try_from": {"std::convert::TryFrom"},
+        "from": {"std::convert::From"},
+        "from_str": {"std::str::FromStr"},
+        "or_default": {"std::default::Default"},
+        "take": {"std::default::Default"},
+        "assert_failed": {"std::fmt::Debug"},
+        "next": set(), "iter": set(), "into_iter": set(), "branch": set(),
+    }
+    STD_TRAIT_PREFIX = ("std::", "core::", "alloc::")
+
+    def _callback_targets(self, c):
+        """local std-trait impl methods an external generic callee may invoke for the local types it is
+        instantiated with (e.g. str::parse::<T> -> <T as FromStr>::from_str)."""
+        inst = c.inst
+        if "svgdx" not in inst:
+            return []
+        last = c.path.split("::")[-1]
+        traits = self.CALLBACK_TRAITS.get(last)
+        if traits is None:
+            return []
+        out = []
+        for b in self._std_impl_methods:
+            st = (b.self_ty or "").lstrip("&")
+            if not st or st not in inst:
+                continue
+            tr = b.trait_item.rsplit("::", 1)[0]
+            if traits is not None:
+                if tr not in traits:
+                    continue
+            if tr == "std::convert::From" or tr == "std::convert::TryFrom":
+                # <T as From<X>>::from : X must be mentioned too
+                tref = self._trait_ref_of.get(b.id, "")
+                x = tref.split(" as ", 1)[1] if " as " in tref else ""
+                x = x[x.find("<") + 1 : x.rfind(">") - 0] if "<" in x else ""
+                x = x.rstrip(">") if x.count("<") < x.count(">") else x
+                if x and x not in inst:
+                    continue
+            out.append(b)
+        return out
+
     def _build_callgraph(self):
+        self._trait_ref_of = {}
+        for it in self.items:
+            if it["item"] == "impl" and "trait_ref" in it:
+                for m in it["methods"]:
+                    self._trait_ref_of[m["id"]] = it["trait_ref"]
+        self._const_id = {it["path"]: it["id"] for it in self.items if it["item"] == "const"}
+        self._std_impl_methods = [b for b in self.bodies.values() if b.trait_item and b.trait_item.startswith(self.STD_TRAIT_PREFIX) and b.self_ty and "svgdx" in b.self_ty]
         self.edges = collections.defaultdict(set)  # id -> set(id)
         self.ext_calls = collections.defaultdict(list)  # id -> [(bb, Callee)] non-local callees
         self.call_edges = 0
@@ -576,6 +670,9 @@ class Program:
                         self.call_edges += 1
                 else:
                     self.ext_calls[b.id].append((bb, c))
+                    for x in self._callback_targets(c):
+                        self.edges[b.id].add(x.id)
+                        self.call_edges += 1
             for kind, x in self._fn_consts_in(b):
                 if kind == "fn":
                     for y in self.targets_of_callee(x):
@@ -583,6 +680,13 @@ class Program:
                 elif kind in ("closure", "dropfn"):
                     if x in self.bodies:
                         self.edges[b.id].add(x)
+                elif kind == "const":
+                    # closures living in the initialiser of a named const (fn-pointer constants)
+                    cid = self._const_id.get(x)
+                    if cid:
+                        for cb in self.bodies.values():
+                            if cb.root == cid:
+                                self.edges[b.id].add(cb.id)
         self.redges = collections.defaultdict(set)
         for a, bs in self.edges.items():
             for b in bs:
